@@ -300,16 +300,16 @@ PROPS = {
     },
     "C11": {
         "streams": ["limit", "decall"],
-        "rule": "limit requests: for every catalogue type (nesting Vec, Box, Rc, Arc, BTreeMap, BTreeSet, LinkedList, VecDeque, BinaryHeap, Option, tuples, recursive derived Tree/Chain) on valid, mutated and suffixed encodings, every limit L = 0..need+2 (need = least succeeding limit, scan capped at 12 when none succeeds): value, remaining compared with the model; oracles: transparent (ok => equals unlimited), monotone in L, some limit succeeds when unlimited does; decode_all_with_depth_limit vs decode. non-trivial = distinct request whose model answer is not `err`",
-        "level_text": "Proved in Lean for every type, byte string and limit (lax simulation theorem over all decoder programs between the unlimited input, a depth-recording specification input and the transliterated DepthTrackingInput): limited decoding returns exactly the unlimited result (value and position) or an error; when unlimited decoding succeeds, the limited one succeeds with the same result IFF L >= need, where need is the maximal number of simultaneously open descend_ref calls of the unlimited run (hence monotone in L, success for all L >= need, failure for all L < need); decode_all_with_depth_limit succeeds iff decode_with_depth_limit succeeds with nothing left. Tied to the crate by the limit stream over all L around the threshold.",
+        "rule": "limit requests: for every catalogue type (nesting Vec, Box, Rc, Arc, BTreeMap, BTreeSet, LinkedList, VecDeque, BinaryHeap, Option, tuples, recursive derived Tree/Chain) on valid, mutated and suffixed encodings, every limit L = 0..need+2 (need = least succeeding limit, scan capped at 12 when none succeeds): value, remaining compared with the model; oracles: transparent (ok => equals unlimited), monotone in L, some limit succeeds when unlimited does; decode_all_with_depth_limit vs decode. non-trivial = distinct request whose model answer is not `err`; for every untampered encoding the least sufficient limit observed on the real crate is compared with the model's nesting(ty, v)",
+        "level_text": "Proved in Lean for every type, byte string and limit (lax simulation theorem over all decoder programs between the unlimited input, a depth-recording specification input and the transliterated DepthTrackingInput): limited decoding returns exactly the unlimited result (value and position) or an error; when unlimited decoding succeeds, the limited one succeeds with the same result IFF L >= need, where need is the maximal number of simultaneously open descend_ref calls of the unlimited run (hence monotone in L, success for all L >= need, failure for all L < need); decode_all_with_depth_limit succeeds iff decode_with_depth_limit succeeds with nothing left. Tied to the crate by the limit stream over all L around the threshold. The abstract needed depth is made concrete by the hook-trace theorem (Proofs/HookTrace.lean: decoding the encoding of ANY well-formed value makes exactly the hook calls hookTrace ty v, through the chunked, bulk and from_iter paths): needDepth = nesting ty v, the container nesting of the value (Box/Rc/Arc, lists, tree maps/sets and element-wise vectors cost a level; vectors of primitives, strings, byte buffers, bit sequences none; components take the maximum) - hence limited decoding of an encoding succeeds IFF nesting <= L (succeeds_iff_nesting_le, deeper_than_limit_rejected), and the depth counter returns to where it started (depth_balanced: siblings do not accumulate).",
         "level_note": "Trusted: as C01. Partial: (1) 'stack-safe' - the theorem bounds the number of open descend_ref levels, i.e. decoder frames of heap-allocating containers, not machine stack bytes; survival of 10^6-deep input on a small stack is a harness observation (thorough tier), not a theorem. (2) need <= value nesting depth is checked by the tie (every L from 0), the theorem fixes need as a property of the unlimited run.",
         "trusted_base": COMMON_TB,
         "assumptions": ["the model runs the wrapper over a slice; C08 extends to other inputs"],
     },
     "C12": {
         "streams": ["mem", "wrapops", "bigmem"],
-        "rule": "mem requests for every DecodeWithMemTracking catalogue type on valid and mutated encodings: first L = usize::MAX (gives U = used_mem()), then every L in 0..=U+1 when U <= 96 (4096 thorough), boundary limits {0,1,U/2,U-1,U,U+1,2U} otherwise: result, remaining and used_mem() compared with the model after success and failure; oracles: non-binding limit transparent, success for all L > U, failure for all 0 < L <= U; plus operation sequences (hook sizes incl. 0, usize::MAX and saturating sums; limits incl. 0 and usize::MAX) on a real MemTrackingInput vs the model, used_mem() compared after every operation. non-trivial = distinct request whose model answer is not `err`",
-        "level_text": "Proved in Lean for every type, byte string and limit L <= usize::MAX: memory-limited decoding returns exactly the unlimited result or an error; with U the tracked usage of the unlimited run, if unlimited decoding succeeds then L > U gives the same value, position and used_mem = U, and U > 0 with L <= U gives an error - a single exact threshold (hence monotone). The hook sizes (chunked vec reservations, Box sizes, list node sizes, the transliterated mem_size_of_btree estimate) are part of the decoder model and compared with used_mem() of the real MemTrackingInput on every request.",
+        "rule": "mem requests for every DecodeWithMemTracking catalogue type on valid and mutated encodings: first L = usize::MAX (gives U = used_mem()), then every L in 0..=U+1 when U <= 96 (4096 thorough), boundary limits {0,1,U/2,U-1,U,U+1,2U} otherwise: result, remaining and used_mem() compared with the model after success and failure; oracles: non-binding limit transparent, success for all L > U, failure for all 0 < L <= U; plus operation sequences (hook sizes incl. 0, usize::MAX and saturating sums; limits incl. 0 and usize::MAX) on a real MemTrackingInput vs the model, used_mem() compared after every operation. non-trivial = distinct request whose model answer is not `err`; for every untampered encoding used_mem() of the real crate is compared with the model's payload(ty, v)",
+        "level_text": "Proved in Lean for every type, byte string and limit L <= usize::MAX: memory-limited decoding returns exactly the unlimited result or an error; with U the tracked usage of the unlimited run, if unlimited decoding succeeds then L > U gives the same value, position and used_mem = U, and U > 0 with L <= U gives an error - a single exact threshold (hence monotone). The hook sizes (chunked vec reservations, Box sizes, list node sizes, the transliterated mem_size_of_btree estimate) are part of the decoder model and compared with used_mem() of the real MemTrackingInput on every request. The threshold is meaningful: by the hook-trace theorem the sizes announced while decoding the encoding of any well-formed value add up to exactly payload ty v - element count x element size per sequence, pointee size per box, string/byte-buffer length, bit-sequence storage words, the crate's node estimate for trees, summed over nesting (tracked_usage_is_payload: U = min(payload, usize::MAX)); U = 0 for heap-free types (usage_zero_without_heap); a successful memory-limited decode implies payload < L (limit_bounds_payload); the tree estimate is within a factor of two of the entries' own bytes (tree_estimate_within_factor_two, arithmetic on the transliterated mem_size_of_btree).",
         "level_note": "Trusted: as C01; size_of values and the b-tree leaf size are measured by the harness in the same build and passed in the type descriptor. Partial: 'U is zero for values holding no heap data and at least the payload bytes' is established per request by comparing the model's U with the real used_mem() and by the kernel-checked examples; the general value-level lower bound is not yet a theorem.",
         "trusted_base": COMMON_TB + ["size_of::<T>() measured by the harness"],
         "assumptions": ["limits are usize values (L <= 2^64-1)"],
